@@ -76,7 +76,13 @@ def src_stmt(s):
             else:
                 lab = {"vals": [str(v) for v in c["vals"]]}
             cases.append({"l": lab, "b": src_stmts(c["b"])})
-        return [{"s": "switch", "init": src_one(s.get("init")), "tag": ("tr.T(%d)" % s["tag"]) if s.get("tag") is not None else None, "cases": cases}]
+        sw = {"s": "switch", "init": None, "tag": pgen.tag_text(s) if s.get("tag") is not None else None, "cases": cases}
+        init = s.get("init")
+        if init and init["s"] == "decl":
+            # as for statements: pass0 hoists the ':=' initialiser into a fresh block around the switch
+            return [{"s": "block", "b": [{"s": "atom", "t": norm("%s := tr.I(%d)" % (init["x"], init["id"]))}, sw]}]
+        sw["init"] = src_one(init)
+        return [sw]
     if k == "for":
         init = s.get("init")
         loop = {"s": "for", "init": None, "c": ("tr.C(%d)" % s["c"]) if s.get("c") is not None else None,
